@@ -1290,7 +1290,8 @@ Theorem matmul_route_spec_proof (a_ndim b_ndim a_lead b_lead : Z) :
   matmul_route a_ndim b_ndim a_lead b_lead
   = if (a_ndim =? 0) || (b_ndim =? 0) then None       (* ValueError: 0-d operands are rejected, like np.matmul *)
     else Some (if b_ndim <=? 2 then MmDot
-               else if a_ndim <=? 2 then MmDotMoveAxis
+               else if a_ndim =? 1 then MmDotVec
+               else if a_ndim =? 2 then MmDotMoveAxis
                else if (a_ndim <=? b_ndim) && (a_lead =? 1) then MmSqueezeA
                else if (b_ndim <=? a_ndim) && (b_lead =? 1) then MmSqueezeB
                else MmBatch).
@@ -1298,7 +1299,8 @@ Proof.
   unfold matmul_route, s_matmul_case. cbn.
   destruct (Z.eqb_spec a_ndim 0); cbn; [reflexivity|]. destruct (Z.eqb_spec b_ndim 0); cbn; [reflexivity|].
   destruct (Z.leb_spec b_ndim 2); cbn; [reflexivity|].
-  destruct (Z.leb_spec a_ndim 2); cbn; [reflexivity|].
+  destruct (Z.eqb_spec a_ndim 1); cbn; [reflexivity|].
+  destruct (Z.eqb_spec a_ndim 2); cbn; [reflexivity|].
   destruct (Z.leb_spec a_ndim b_ndim); cbn.
   - destruct (Z.eqb_spec a_lead 1); cbn; [reflexivity|].
     destruct (Z.leb_spec b_ndim a_ndim); cbn; [|reflexivity].
@@ -1306,6 +1308,9 @@ Proof.
   - destruct (Z.leb_spec b_ndim a_ndim); cbn; [|reflexivity].
     destruct (Z.eqb_spec b_lead 1); cbn; reflexivity.
 Qed.
+
+Theorem dot_value_buffers_proof : dot_value_buffers_typed = true.
+Proof. reflexivity. Qed.
 
 (* ====================================================================== dot: routing (generated g_dot) *)
 Ltac split_one :=
@@ -3913,6 +3918,25 @@ Proof.
     rewrite map_nth. rewrite nth_zrange by lia. exact Pn.
 Qed.
 
+(* ====================================================================== einsum: ellipsis letters *)
+(* a term whose ellipsis covers k <= longest axes gets the LAST k letters of the output's ellipsis: the shorter
+   ellipsis is lined up with the trailing axes of the longer one, as NumPy broadcasts *)
+Theorem einsum_ellipsis_aligned_proof (pool : list Z) (k longest : nat) :
+  (k <= longest)%nat -> (longest <= length pool)%nat ->
+  es_rep_letters pool k = skipn (longest - k) (es_out_letters pool longest)
+  /\ length (es_out_letters pool longest) = longest.
+Proof.
+  intros Hk Hl. unfold es_rep_letters, es_out_letters, take_letters, s_es_rep_from_end, s_es_out_from_end.
+  destruct longest as [|L].
+  - replace k with 0%nat by lia. split; reflexivity.
+  - split.
+    + destruct k as [|k'].
+      * rewrite Nat.sub_0_r. symmetry. replace (S L) with (length (skipn (length pool - S L) pool)) at 1 by (rewrite skipn_length; lia).
+        apply skipn_all.
+      * rewrite skipn_add. f_equal. lia.
+    + rewrite skipn_length. lia.
+Qed.
+
 (* ====================================================================== non-vacuity *)
 (* the hypotheses of the theorems above hold of concrete non-trivial operands over Z *)
 Definition exA : csr Z := mkCSR [1; 2; 3] [0; 1; 2] [0; 2; 3; 3].           (* 3 x 3, one empty row *)
@@ -3978,7 +4002,7 @@ Example spgemm_csc_example :
 Proof. vm_compute. repeat split; reflexivity. Qed.
 
 Example matmul_route_example :
-  matmul_route 3 2 6 1 = Some MmDot /\ matmul_route 2 3 2 2 = Some MmDotMoveAxis /\
+  matmul_route 3 2 6 1 = Some MmDot /\ matmul_route 2 3 2 2 = Some MmDotMoveAxis /\ matmul_route 1 4 1 6 = Some MmDotVec /\
   matmul_route 3 3 1 2 = Some MmSqueezeA /\ matmul_route 4 3 6 1 = Some MmSqueezeB /\ matmul_route 3 3 6 2 = Some MmBatch.
 Proof. vm_compute. repeat split; reflexivity. Qed.
 
